@@ -262,12 +262,14 @@ def read_scsv(file):
         csv_lines = []
 
         is_yaml = False
+        yaml_done = False
         for line in fileref:
             if line == "\n":  # Empty lines are skipped.
                 continue
-            if line == "---\n":
+            if line == "---\n" and not yaml_done:
                 if is_yaml:
                     is_yaml = False  # Second --- ends YAML section.
+                    yaml_done = True  # Any later --- is a data cell.
                     continue
                 else:
                     is_yaml = True  # First --- begins YAML section.
